@@ -79,7 +79,7 @@ theorem init_transfers_lookup (cols : List ColDef) (k : String) (hk : k ∈ cols
       simp [alookup, h, ih this]
 
 theorem init_verbatim (tn : String) (refl : Bool) (s : Schema) (k : String) (hk : k ∈ s.cols.map (·.name))
-    (pr : List (List String) := []) : Verbatim k (State.init tn refl s pr) := by
+    (pr : List (List String) := []) (sl : String := "") : Verbatim k (State.init tn refl s pr sl) := by
   refine ⟨{ expr := some (.col k) }, ?_, rfl⟩
   simp only [State.init]
   exact init_transfers_lookup s.cols k hk
